@@ -1233,3 +1233,18 @@ pub fn survivor_check(
     }
     Ok(())
 }
+
+impl Model {
+    /// the current file was renamed/removed externally and the output re-opened at the same
+    /// path: its content so far leaves the family, the counters of the logger are not reset
+    pub fn external_take_current(&mut self) -> Option<Seg> {
+        let now_started = self.current.as_ref().map(|c| c.started_ns)?;
+        let taken = self.current.take();
+        self.current = Some(Seg {
+            content: Vec::new(),
+            started_ns: now_started,
+            gz: false,
+        });
+        taken
+    }
+}
